@@ -1600,4 +1600,19 @@ func Run(c *hx.Ctx) {
 			runSched(c, prog, Sched{Level: level, Name: "overshoot then sequential", Cfg: cfg}, next)
 		}
 	}
+	// 5. sequential: k = 1..3 attempts refused AFTER the handshake (own peer id, recorded peer id from
+	// another IP), then fresh peers up to the limit and beyond it (refused.go); the full grid
+	// direction x reason x k on every run, plus mixed plans
+	nR := c.N(14, 150)
+	for _, level := range []string{"A", "B"} {
+		for _, p := range refusedPlans(c, nR) {
+			if level != "A" && !levelB {
+				break
+			}
+			cfg, next := genRefusedThenFill(c, level, p)
+			c.Count("mode:" + level + ":refused-then-fill")
+			c.Count(fmt.Sprintf("refused-then-fill:k=%d", len(p.reasons)))
+			runSched(c, prog, Sched{Level: level, Name: p.name(), Cfg: cfg}, next)
+		}
+	}
 }
